@@ -420,6 +420,9 @@ func runC10(p *core.Program, r *core.Report) {
 	// R11: "compiled in a file with the imports it registered": the name a package is imported under is an identifier
 	chainRules(p, r, "R11", "C03", []string{"C03.R5"}, "import names are valid non-keyword identifiers")
 	c10R12(p, r)
+	// R13: value literals of instantiated generic types carry the type's name with every nested type argument rewritten
+	// to its import name (C15.R4: the walk over the arguments visits every node and handles each exactly once)
+	chainRules(p, r, "R13", "C15", []string{"C15.R4"}, "nested type arguments are all visited and rewritten to their import names")
 }
 
 // numClass: signed / unsigned / float class of a reflect kind name or a basic type.
